@@ -89,6 +89,9 @@ TBulk ==
              \cup (IF ok THEN UNION {StatusFails(e.results[j]) : j \in {x \in 1..Len(e.results) : x <= Len(e.entries) /\ e.entries[x].valid}} ELSE {})
              \cup When(Quiet(FALSE, e.save, e.dout, nf, mf), "C17_Quiet")
              \cup When(OnlyReport(e.save, nf, mf, BulkReport), "C17_OnlyReport")
+             \* C17: with save_report the call returns what the plain call returns (so it must return at all, and be the same map)
+             \cup When(~e.save \/ ok, "C17_ReportRaised")
+             \cup When(~e.save \/ ~ok \/ (BulkLength(e.entries, e.results) /\ BulkIsMap(e.entries, e.results, e.mode, e.vr)), "C17_SameResult")
         /\ incon' = incon \cup (IF ok /\ \E j \in 1..Len(e.results) : j <= Len(e.entries) /\ e.entries[j].valid /\ e.results[j].css # <<>>
                                           /\ Level(e.results[j].css, e.results[j].bg, e.results[j].large) = "CLOSE"
                                 THEN {"C12_StatusIsLabelOfResult"} ELSE {})
